@@ -187,6 +187,30 @@ func c06(c *Ctx) {
 					c06collect(addSample, e, op, docKey, fmt.Sprintf("%s/ctx=%s", base, ctx), rv.Class, protoText, ctxMD)
 				}
 			}
+			// the same responses when the request's Content-Type is spelled otherwise (still answered in JSON)
+			for _, rv := range rootVals {
+				if rv.Class != "full0" && rv.Class != "full1" {
+					continue
+				}
+				rpc := u.FP.Svc + "." + u.FP.RPC[ctx]
+				for _, alt := range altRequestCTs {
+					gs.Script(rpc, map[string]any{"resp": b64(wire(rv.M))})
+					var hdr [][2]string
+					if alt.CT != "" {
+						hdr = [][2]string{{"Content-Type", alt.CT}}
+					}
+					resp, err := rawHTTP("POST", gs.URL, u.FP.Path[ctx], hdr, jsonmap.Marshal(mustTree(enc, dynamicpb.NewMessage(ctxMD))))
+					c.R.Eval(1)
+					_, _ = syncEvents(ch)
+					if err != nil || resp.Status != 200 || !strings.HasPrefix(resp.Header.Get("Content-Type"), "application/json") {
+						continue
+					}
+					if t, perr := jsonmap.Parse(resp.Body); perr == nil {
+						addSample(wireSample{md: ctxMD, caseID: fmt.Sprintf("%s/ctx=%s/dir=response/ct=%s@%s", base, ctx, alt.Label, rv.Class), docKey: docKey, schema: closed(op.Responses["200"]), inst: t,
+							what: "Go server 200 response body (request Content-Type: " + alt.CT + ")", proto: protoText, raw: string(resp.Body)})
+					}
+				}
+			}
 			// error responses: malformed body -> 400 ; handler error -> 500
 			gs.Script("", map[string]any{"err": map[string]any{"kind": "plain", "message": "boom"}})
 			if resp, err := rawHTTP("POST", gs.URL, u.FP.Path[ctx], [][2]string{{"Content-Type", "application/json"}}, jsonmap.Marshal(mustTree(enc, dynamicpb.NewMessage(ctxMD)))); err == nil {
